@@ -162,7 +162,7 @@ def parseObservation (v : Values) (s : State) : Except Err State := do
         let types ← match s.metaD.get [key "obstypes"] with
           | some (.list l) => pure l
           | _ => throw .other
-        let d1 ← (types.zip (o.zip (c.zip g))).foldlM (fun d (t, (a, (b, z))) => d.appendObs t a b z) s.data
+        let d1 ← appendAll s.data ((types.zip (o.zip (c.zip g))).map fun (t, (a, (b, z))) => (t, a, b, z))
         let station ← match s.metaD.get [key "marker_name"] with
           | some (.text t) => pure (lower t)
           | _ => throw .other
